@@ -29,6 +29,24 @@ CHECKS = {
  'C16': ('search', MC, 'exhaustive enumeration of tag rows x pruning_size x beta through parse_sentence against the admitted-set oracle',
          'Every combination of tag rows over {0,-1,-2,-4,-1e33} for n<=2 words x pruning_size {1,2,3} x beta {off,0.5,0.2,0.01} in a grammar where each tag choice yields a distinct derivation: leaves must be admitted, result must be the optimum over admitted-only derivations, failure iff none.',
          'Ties at the pruning boundary, probabilities within e^0.3 of the threshold and all-zero probabilities are unspecified and not judged (counted).', '5/C16'),
+ 'C03': ('catspace', EX, 'exhaustive enumeration of ordered category pairs and schema instantiations against schema relations',
+         'All ordered pairs of the shipped English and rebank inventories, rule-closure x inventory, U_en(2)^2 (U_en(3) x U_en(2) in thorough) and every instantiation of the six schemas over a pool with feature perturbations: each result must satisfy the relation of the schema its label names; identical parts must yield the schema result; listed special rules as constants.',
+         'Trusted: mc/schemas.py restatement of the CCG schemata; nb erased before judging; bounds: categories <= 3 atoms outside the inventories/instantiations.', '5/C03'),
+ 'C04': ('catspace', EX, 'exhaustive enumeration of ordered category pairs, schema instantiations and unary inputs against schema relations',
+         'All ordered pairs of the shipped Japanese inventory, closure x inventory, U_ja(2)^2 (U_ja(3) x U_ja(2) in thorough), every instantiation of the ten schemas with perturbations; unary labels for every left-hand side of the shipped table and every bounded synthetic one.',
+         'Trusted: mc/schemas.py; unary labels outside adn/0-1 and adv/0-2 are unspecified.', '5/C04'),
+ 'C05': ('catspace', EX, 'exhaustive enumeration of category values and decorated texts up to a size/decoration bound',
+         'Every value of U(3) over both feature systems and / \\ | round-trips through str/parse and prints the independent canonical text; every decorated text (redundant () / <> around any sub-term, blanks at token boundaries) up to d decorations parses to the same value; every text with a required bracket pair removed is rejected; all 3469 shipped strings round-trip.',
+         'Trusted: independent printer in mc/cats.py; well-formed text = canonical text + balanced redundant brackets + blanks between tokens.', '5/C05'),
+ 'C06': ('catspace', EX, 'exhaustive enumeration of (pattern pair, category pair) cases against a three-valued reference matcher',
+         'Pattern pairs read from the grammar sources plus all canonical pattern pairs over <=3 variables/<=2 slashes, against all pairs of U(2) and all pool instantiations with feature perturbations: success iff the statement says so (unspecified zone not judged), bindings, failure and single-use behaviour.',
+         'Trusted: mc/matcher.py reference; mixed-direction ternary variables / mixed feature systems / repeated variables in one pattern are unspecified.', '5/C06'),
+ 'C13': ('catspace', EX, 'exhaustive enumeration of ordered pairs of category values against an independent structural comparator',
+         'All ordered pairs of a size-ordered prefix of U(3) over both feature systems and three slashes: == iff identical, hash, != , ^ iff equal skeleton, string comparison iff canonical text; per value dict/set membership, clear_features over every subset of feature names.',
+         'Trusted: mc/cats.py::key comparator; bound: all of U(2) plus a prefix of size 3 (larger prefix in thorough).', '5/C13'),
+ 'C14': ('catspace', MC, 'exhaustive enumeration of calls x every iteration order of the explorer-owned string set (schedule exploration of the hash-seed nondeterminism)',
+         'Every pair in the bounded spaces is applied under every iteration order of the set of shared variable names (the only hash-seed-dependent construct on the path), must not raise, must not mutate its arguments, must repeat; seen-rule filtering equals the unrestricted result or []; nb invariance; unary tables return exactly their targets. Subprocess digests under several real PYTHONHASHSEED values validate that the seam owns the nondeterminism.',
+         'Trusted: seam covers all seed-dependent constructs (validated by digests under 4/16 real seeds); sets >4 elements get 25 orders only (counted).', '5/C14'),
 }
 
 PENDING = {}
